@@ -87,8 +87,8 @@ theorem getLast?_append_single {α} (l : List α) (a : α) : (l ++ [a]).getLast?
 /-- one ballot line: the body loop adds the ballot and goes on -/
 theorem parseBody_vote (idx : List Nat) (w : Weight) (h : weightOK w = true) (h0 : 0 ≤ w.val)
     (rest : List Line) (bs : RawBallots) (wd : List Rat) (seen : Bool) :
-    parseBody (dumpVote (idx, w) :: rest) bs wd seen
-      = parseBody rest (addBallot bs (idx.map (· + 1)) w.val) wd true := by
+    parseBody false (dumpVote (idx, w) :: rest) bs wd seen
+      = parseBody false rest (addBallot bs (idx.map (· + 1)) w.val) wd true := by
   obtain ⟨x, hv, hp⟩ := parse_dumpVote idx w h
   simp only [parseBody, hp, ok_bind]
   have hne : ((idx.map (· + 1)).map Num.nat ++ [Num.nat 0]).isEmpty = false := by simp
@@ -117,8 +117,8 @@ theorem parseBody_votes : ∀ (bl : List (List Nat × Weight)) (rest : List Line
     (seen : Bool),
     (∀ b ∈ bl, weightOK b.2 = true) →
     (acc.map (fun (a : List Nat × Rat) => a.1) ++ bl.map (fun (b : List Nat × Weight) => b.1.map (· + 1))).Nodup →
-    parseBody (bl.map dumpVote ++ rest) acc wd seen
-      = parseBody rest (acc ++ bl.map (fun b => (b.1.map (· + 1), b.2.val))) wd (seen || !bl.isEmpty)
+    parseBody false (bl.map dumpVote ++ rest) acc wd seen
+      = parseBody false rest (acc ++ bl.map (fun b => (b.1.map (· + 1), b.2.val))) wd (seen || !bl.isEmpty)
   | [], rest, acc, wd, seen, _, _ => by simp
   | (idx, w) :: t, rest, acc, wd, seen, hok, hn => by
       have hw : weightOK w = true := hok (idx, w) (List.mem_cons_self)
@@ -144,8 +144,8 @@ theorem parseBody_votes : ∀ (bl : List (List Nat × Weight)) (rest : List Line
 
 /-- withdrawn lines `-(i+1)`: consumed before any ballot, each adds `i+1` to the withdrawn set -/
 theorem parseBody_withdrawn : ∀ (is : List Nat) (rest : List Line) (bs : RawBallots) (wd : List Rat),
-    parseBody (is.map (fun (i : Nat) => Line.toks [.dec (-((i : Rat) + 1))]) ++ rest) bs wd false
-      = parseBody rest bs (wd ++ is.map (fun (i : Nat) => (i : Rat) + 1)) false
+    parseBody false (is.map (fun (i : Nat) => Line.toks [.dec (-((i : Rat) + 1))]) ++ rest) bs wd false
+      = parseBody false rest bs (wd ++ is.map (fun (i : Nat) => (i : Rat) + 1)) false
   | [], rest, bs, wd => by simp
   | i :: t, rest, bs, wd => by
       have hpos : (0 : Rat) < (i : Rat) + 1 := by positivity
@@ -161,7 +161,7 @@ theorem parseBody_withdrawn : ∀ (is : List Nat) (rest : List Line) (bs : RawBa
 
 /-- the end-of-ballots marker -/
 theorem parseBody_term (rest : List Line) (bs : RawBallots) (wd : List Rat) (seen : Bool) :
-    parseBody (Line.toks [.nat 0] :: rest) bs wd seen = .ok (bs, wd, rest) := by
+    parseBody false (Line.toks [.nat 0] :: rest) bs wd seen = .ok (bs, wd, rest) := by
   simp [parseBody, parseNumline, parseItems, Num.val]
 
 /-! ### the string section -/
@@ -333,7 +333,7 @@ theorem load_dump (d : Doc Weight) (h : WFdoc d = true) : loadBlt (dumpBlt d) = 
     rw [this]
     exact hnd.map hinj
   rw [dumpBlt_shape]
-  simp only [loadBlt]
+  simp only [loadBlt, loadBltWith]
   have hh : parseHeader (Line.toks [.nat d.cands.length, .nat d.nSeats]) = .ok (d.cands.length, d.nSeats) := by
     simp [parseHeader, parseNumline, parseItems]
   rw [hh]
@@ -416,7 +416,7 @@ theorem parseHeader_err (l : Line) (e : Err) (h : parseHeader l = .error e) : e 
     · simp at h; exact h.symm
 
 theorem parseBody_err : ∀ (ls : List Line) (bs : RawBallots) (wd : List Rat) (seen : Bool) (e : Err),
-    parseBody ls bs wd seen = .error e → e = Err.parseError
+    parseBody false ls bs wd seen = .error e → e = Err.parseError
   | [], _, _, _, e, h => by simp [parseBody] at h; exact h.symm
   | l :: rest, bs, wd, seen, e, h => by
       simp only [parseBody] at h
@@ -428,12 +428,34 @@ theorem parseBody_err : ∀ (ls : List Line) (bs : RawBallots) (wd : List Rat) (
         cases result with
         | nil => exact parseBody_err rest bs wd seen e h
         | cons first more =>
-          simp only at h
+          simp only [Bool.false_and, Bool.false_eq_true, if_false] at h
           repeat' split at h
           all_goals first
             | (simp at h; done)
             | (simp at h; exact h.symm)
             | exact parseBody_err rest _ _ _ e h
+
+/-- with `oneplus_weights=True` the body loop can also raise ValueError (a ballot weight below 1) — and nothing else -/
+theorem parseBody_err_oneplus : ∀ (ls : List Line) (bs : RawBallots) (wd : List Rat) (seen : Bool) (e : Err),
+    parseBody true ls bs wd seen = .error e → e = Err.parseError ∨ e = Err.other "ValueError"
+  | [], _, _, _, e, h => by simp [parseBody] at h; exact Or.inl h.symm
+  | l :: rest, bs, wd, seen, e, h => by
+      simp only [parseBody] at h
+      cases hr : parseNumline true l with
+      | error e' => rw [hr] at h; simp at h; subst h; exact Or.inl (parseNumline_err _ _ _ hr)
+      | ok result =>
+        rw [hr] at h
+        simp only [ok_bind] at h
+        cases result with
+        | nil => exact parseBody_err_oneplus rest bs wd seen e h
+        | cons first more =>
+          simp only [Bool.true_and] at h
+          repeat' split at h
+          all_goals first
+            | (simp at h; done)
+            | (simp at h; exact Or.inl h.symm)
+            | (simp at h; exact Or.inr h.symm)
+            | exact parseBody_err_oneplus rest _ _ _ e h
 
 theorem collectStrings_err : ∀ (ls : List Line) (b : Bool) (acc : List String) (e : Err),
     collectStrings ls b acc = .error e → e = Err.parseError
@@ -468,16 +490,16 @@ theorem deindex_err (n : Nat) (bs : RawBallots) (e : Err) (h : deindex n bs = .e
 /-- every exception `loads` can raise on any token lines is the parse error -/
 theorem loadBlt_err (ls : List Line) (e : Err) (h : loadBlt ls = .error e) : e = Err.parseError := by
   cases ls with
-  | nil => simp [loadBlt] at h; exact h.symm
+  | nil => simp [loadBlt, loadBltWith] at h; exact h.symm
   | cons hd rest =>
-    simp only [loadBlt] at h
+    simp only [loadBlt, loadBltWith] at h
     cases hh : parseHeader hd with
     | error e' => rw [hh] at h; simp at h; subst h; exact parseHeader_err _ _ hh
     | ok ns =>
       obtain ⟨nC, nS⟩ := ns
       rw [hh] at h
       simp only [ok_bind] at h
-      cases hb : parseBody rest [] [] false with
+      cases hb : parseBody false rest [] [] false with
       | error e' => rw [hb] at h; simp at h; subst h; exact parseBody_err _ _ _ _ _ hb
       | ok r =>
         obtain ⟨bal, wd, rest'⟩ := r
@@ -491,6 +513,34 @@ theorem loadBlt_err (ls : List Line) (e : Err) (h : loadBlt ls = .error e) : e =
           simp only [ok_bind] at h
           cases hd2 : deindex (formCandidates (names?.getD (numericCandidates nC)) wd).length bal with
           | error e' => rw [hd2] at h; simp at h; subst h; exact deindex_err _ _ _ hd2
+          | ok tb => rw [hd2] at h; simp at h
+
+theorem loadBltWith_true_err (ls : List Line) (e : Err) (h : loadBltWith true ls = .error e) :
+    e = Err.parseError ∨ e = Err.other "ValueError" := by
+  cases ls with
+  | nil => simp [loadBltWith] at h; exact Or.inl h.symm
+  | cons hd rest =>
+    simp only [loadBltWith] at h
+    cases hh : parseHeader hd with
+    | error e' => rw [hh] at h; simp at h; subst h; exact Or.inl (parseHeader_err _ _ hh)
+    | ok ns =>
+      obtain ⟨nC, nS⟩ := ns
+      rw [hh] at h
+      simp only [ok_bind] at h
+      cases hb : parseBody true rest [] [] false with
+      | error e' => rw [hb] at h; simp at h; subst h; exact parseBody_err_oneplus _ _ _ _ _ hb
+      | ok r =>
+        obtain ⟨bal, wd, rest'⟩ := r
+        rw [hb] at h
+        simp only [ok_bind] at h
+        cases hs : parseStrings rest' nC with
+        | error e' => rw [hs] at h; simp at h; subst h; exact Or.inl (parseStrings_err _ _ _ hs)
+        | ok r2 =>
+          obtain ⟨names?, title⟩ := r2
+          rw [hs] at h
+          simp only [ok_bind] at h
+          cases hd2 : deindex (formCandidates (names?.getD (numericCandidates nC)) wd).length bal with
+          | error e' => rw [hd2] at h; simp at h; subst h; exact Or.inl (deindex_err _ _ _ hd2)
           | ok tb => rw [hd2] at h; simp at h
 
 /-! ### what is returned names listed candidates only -/
@@ -535,16 +585,16 @@ theorem formFrom_length' (W : List Rat) (names : List String) : (formCandidates 
 theorem loadBlt_valid (ls : List Line) (d : Doc Rat) (h : loadBlt ls = .ok d) :
     ∀ b ∈ d.ballots, ∀ i ∈ b.1, i < d.cands.length := by
   cases ls with
-  | nil => simp [loadBlt] at h
+  | nil => simp [loadBlt, loadBltWith] at h
   | cons hd rest =>
-    simp only [loadBlt] at h
+    simp only [loadBlt, loadBltWith] at h
     cases hh : parseHeader hd with
     | error e' => rw [hh] at h; simp at h
     | ok ns =>
       obtain ⟨nC, nS⟩ := ns
       rw [hh] at h
       simp only [ok_bind] at h
-      cases hb : parseBody rest [] [] false with
+      cases hb : parseBody false rest [] [] false with
       | error e' => rw [hb] at h; simp at h
       | ok r =>
         obtain ⟨bal, wd, rest'⟩ := r
